@@ -2,6 +2,7 @@
 import SkVerif.Model.Naive
 import SkVerif.Model.Trend
 import SkVerif.Model.History
+import SkVerif.Model.Adapter
 import SkVerif.Drv.Parse
 namespace SkVerif.Drv.C11
 open SkVerif SkVerif.Drv SkVerif.Naive
@@ -43,12 +44,17 @@ def handle (toks : List String) : String :=
       | .error e => showErr e
       | .ok (xf, xp, labels) => s!"fit={showRows xf} pred={showRows xp} idx={showIntList labels}"
     | _, _, _, _, _, _ => "bad-op"
-  | ["adapter", origin, n, fh, rel, dense] =>
-    match parseInt? origin, parseNat? n, parseIntList? fh, parseBool? rel, parseORatList? dense with
-    | some origin, some n, some fh, some rel, some dense =>
+  | ["adapter", cls, opts, origin, n, fh, rel, dense] =>
+    match Adapter.parseArgs opts, parseInt? origin, parseNat? n, parseIntList? fh, parseBool? rel, parseORatList? dense with
+    | some opts, some origin, some n, some fh, some rel, some dense =>
       let sm : Int → Val := fun i => if i < 0 then none else (dense[i.toNat]?).getD none
-      showSeries (Trend.adapterPredict sm n origin (.ints fh) rel)
-    | _, _, _, _, _ => "bad-op"
+      let series := showSeries (Trend.adapterPredict sm n origin (.ints fh) rel)
+      match cls with
+      | "es" => s!"{series} ctor={Adapter.showArgs (Adapter.esCtor opts)} fitkw={Adapter.showArgs (Adapter.esFit opts)}"
+      | "ets" => s!"{series} ctor={Adapter.showArgs (Adapter.etsCtor opts)} fitkw={Adapter.showArgs (Adapter.etsFit opts)}"
+      | "theta" => s!"{series} ctor={Adapter.showArgs (Adapter.thetaCtor opts)} fitkw={Adapter.showArgs (Adapter.esFit opts)}"
+      | _ => "bad-op"
+    | _, _, _, _, _, _ => "bad-op"
   | ["naiveh", st0, sp0, wl0, o0, y0, st, sp, wl, origin, y, fh, rel] =>
     match parseStrategy? st0, parseInt? sp0, parseOInt? wl0, parseInt? o0, parseORatList? y0,
           parseStrategy? st, parseInt? sp, parseOInt? wl, parseInt? origin, parseORatList? y,
